@@ -46,6 +46,7 @@ func c16(tier string) []*explore.Scenario {
 	for _, when := range []string{"before-old-fails", "after-old-fails"} {
 		out = append(out, c17Reattach("C16", when, bound))
 	}
+	out = append(out, c17ReattachRacesTraffic("C16", 3, bound+1), c17ReattachRacesTraffic("C16", 6, bound))
 	for _, dial := range []string{"fails", "succeeds", "pending"} {
 		out = append(out, c17AttachDuringDial("C16", dial, bound))
 		if dial != "pending" {
